@@ -683,7 +683,7 @@ pub fn enum_cases(n: usize, start: usize, len: usize, api: Api, thorough: bool) 
 
 pub fn io_case_strategy(api: Api, max_ops: usize) -> proptest::strategy::BoxedStrategy<IoCase> {
     use proptest::prelude::*;
-    let caps: Vec<u32> = vec![0, 1, 2, 3, 4, 5, 6, 7, 8, 9, 13, 16, 17, 32, 33, 64, 100, 255, 256];
+    let caps: Vec<u32> = vec![0, 1, 2, 3, 4, 5, 6, 7, 8, 9, 13, 16, 17, 31, 32, 33, 64, 65, 100, 128, 129, 255, 256];
     let amt = prop_oneof![4 => any::<u16>().prop_map(Amt::Frac), 3 => (0u32..12).prop_map(Amt::At), 2 => (0u32..4).prop_map(Amt::Past), 1 => Just(Amt::Max)];
     proptest::sample::select(caps)
         .prop_flat_map(move |n| {
